@@ -425,9 +425,13 @@ PROPS["C05"] = dict(
                  "quiescence of the real code between events is detected by a wrapper around the dialled net.Conn "
                  "(read loop blocked in Read with every emitted byte consumed); 5 s waits for expected returns, "
                  "30 ms settle before the final snapshot",
-                 "schedules inside the Go runtime are sampled (pipeline_conc), not enumerated"],
+                 "schedules inside the Go runtime are sampled (pipeline_conc), not enumerated",
+                 "a payload slice read by several exchanges at once is read untorn (Go memory model); that the Go write is the "
+                 "model's write (private copy) is tested by pipeline_shared, not proved"],
     trusted=["C05: scripted server + conn wrapper in harness/cmd/implrun/c05.go; verif hook "
-             "transport.VerifNewPipelineTransportPreset (copy of NewPipelineTransport that presets nextQid)"],
+             "transport.VerifNewPipelineTransportPreset (copy of NewPipelineTransport that presets nextQid); "
+             "pipeline_shared: wrapper around the dialled net.Conn whose Write waits until every exchange of the burst is "
+             "inside Write (harness/cmd/implrun/c05c.go)"],
     level_note="partial: theorems cover every schedule of the model's atomic actions (addQueueC, write, read, "
                "getQueueC, non-blocking send, select arms, deleteQueueC, close) for any number of exchanges and any "
                "server behaviour; atomicity of the Go mutex/channel primitives and the one-step closeWithErr are "
